@@ -20,6 +20,28 @@ ASSUMPTIONS = ["floating point rounding is not modelled: model and implementatio
                "convergence within 10 Newton steps is validated by execution (one-parameter family scan), not proved",
                "numba compiles lineardispersion.py faithfully"]
 
+SRC_FUNCS = ["intrinsic_dispersion_relation", "phase_velocity", "ratio_group_velocity_to_phase_velocity",
+             "intrinsic_group_velocity", "jacobian_wavenumber_to_radial_frequency",
+             "jacobian_radial_frequency_to_wavenumber", "inverse_intrinsic_dispersion_relation"]
+SRC_ALIASES = {"c": "phase_velocity", "cg": "intrinsic_group_velocity", "k": "inverse_intrinsic_dispersion_relation",
+               "w": "intrinsic_dispersion_relation", "n": "ratio_group_velocity_to_phase_velocity"}
+
+
+def pregen(ctx):
+    """regenerate coq/Generated/DispersionSrc.v from the CURRENT wavetheory/lineardispersion.py (fail-closed
+    element-wise translator); Proofs/DispersionGen.v proves the regenerated formulas and loop pieces equal to
+    the model, so a changed formula breaks a proof obligation of Properties/C07.v"""
+    import os, sys
+    sys.path.insert(0, os.path.join(C.VERIF, "harness"))
+    import translate_pointwise as TP
+    src = os.path.join(C.REPO, "src", "ocean_science_utilities", "wavetheory", "lineardispersion.py")
+    aliases = dict(TP.generate(src, SRC_FUNCS, os.path.join(C.COQ, "Generated", "DispersionSrc.v"),
+                               "wavetheory/lineardispersion.py"))
+    for a, f in SRC_ALIASES.items():
+        if aliases.get(a) != f:
+            raise TP.Refuse("module-level alias %s is no longer %s" % (a, f))
+
+
 FINDING_KEY = "lineardispersion.inverse_intrinsic_dispersion_relation:tolerance-jump-nonmonotone"
 
 
